@@ -334,6 +334,7 @@ def _main(a, seed, t_start):
             'checker_cmd': './check %s --tier %s' % (prop, tier),
             'trusted_base': reg.trusted + [t for t in getattr(mod, 'TRUSTED', []) if t not in reg.trusted] + COMMON_TRUSTED,
             'samples': [sample(o, results[o.name]) for o in pick_samples(real)],
+            'slowest': [sample(o, results[o.name]) for o in sorted(real, key=lambda o: -results[o.name]['time'])[:8]],
             'functions_under_contract': functions,
             'assumed_contracts': sorted(c.target for c in reg.contracts.values() if c.assumed and used_by(c, prop)),
             'by_backend': by_backend, 'solver_time_s': round(solver_time, 2), 'solver_wall_s': round(solver_wall, 2),
